@@ -259,7 +259,12 @@ func VerifC44InfoRequest() {
 		// SCION header of the answer (the code re-serialises the extension, see notes/C44.md): only
 		// the SCION header (addresses swapped, path reversed) is compared.
 		hdr := len(exp) - (len(in) - l.l4Off)
-		verif.Assert("answer-not-shorter-than-its-header", len(out) >= hdr)
+		if len(out) < hdr {
+			// only possible where the answer is not defined (IPv4-mapped host addresses are
+			// shortened to IPv4 by the code)
+			verif.Assert("answer-not-shorter-than-its-header", !wf)
+			return
+		}
 		exp, mask, out = exp[:hdr], mask[:hdr], out[:hdr]
 		mask[4], mask[6], mask[7] = 0, 0, 0
 	}
